@@ -172,6 +172,14 @@ static std::string runHistory(std::size_t cap, const std::vector<std::string> &o
         st->compact();
         emit("win=" + hex(readFile(path)) + "/" + hex(oldLog));
       }
+      else if (k == "W")
+      {
+        // what an earlier process killed inside a compaction (snapshot written to <path>.tmp in full or in part,
+        // not yet renamed) leaves behind: W:full / W:half = the current snapshot's bytes, W:junk:<hex> = those bytes
+        std::string cur = fs::exists(path) ? readFile(path) : std::string();
+        std::string t = p[1] == "full" ? cur : p[1] == "half" ? cur.substr(0, cur.size() / 2) : unhex(p[2]);
+        writeFile(path + ".tmp", t);
+      }
       else if (k == "RP") st->removeWithPrefix(unhex(p[1]));
       else if (k == "B" || k == "BE")
       {
